@@ -1,6 +1,7 @@
 package main
 
 import (
+	"os/exec"
 	"fmt"
 	"go/ast"
 	"go/token"
@@ -35,12 +36,18 @@ func loadWorld(repoDir string, patterns []string, extraTags string) (*World, err
 		tags += "," + extraTags
 	}
 	cfg := &packages.Config{
-		Mode: packages.NeedName | packages.NeedFiles | packages.NeedCompiledGoFiles | packages.NeedImports |
-			packages.NeedDeps | packages.NeedTypes | packages.NeedSyntax | packages.NeedTypesInfo | packages.NeedTypesSizes,
+		Mode: loadMode(),
 		Dir:        repoDir,
 		BuildFlags: []string{"-tags=" + tags},
 		Env: append(os.Environ(), "GOFLAGS=-mod=mod", "GOPROXY=off", "GOSUMDB=off", "GOTOOLCHAIN=local",
 			"GOARCH="+goarchFor(extraTags)),
+	}
+	if os.Getenv("RVC_LOAD_SOURCE") == "" {
+		// every package of the repository that the requested ones depend on is loaded from source too
+		// (as before); only what lies outside the module comes from export data
+		if more := repoClosure(repoDir, patterns, cfg); len(more) > 0 {
+			patterns = more
+		}
 	}
 	pkgs, err := packages.Load(cfg, patterns...)
 	if err != nil {
@@ -72,6 +79,43 @@ func loadWorld(repoDir string, patterns []string, extraTags string) (*World, err
 		}
 	})
 	return w, nil
+}
+
+// loadMode: by default dependencies outside the requested packages (the standard library above all)
+// come from compiler export data instead of being type-checked from source: their bodies are never
+// needed (calls into them are checked against contracts), and this is most of the load time.
+// RVC_LOAD_SOURCE=1 restores loading everything from source.
+func loadMode() packages.LoadMode {
+	m := packages.NeedName | packages.NeedFiles | packages.NeedCompiledGoFiles | packages.NeedImports |
+		packages.NeedTypes | packages.NeedSyntax | packages.NeedTypesInfo | packages.NeedTypesSizes
+	if os.Getenv("RVC_LOAD_SOURCE") != "" {
+		m |= packages.NeedDeps
+	} else {
+		m |= packages.NeedExportFile
+	}
+	return m
+}
+
+// repoClosure lists the import paths of the requested packages and of every package of this module
+// they (transitively) import.
+func repoClosure(repoDir string, patterns []string, cfg *packages.Config) []string {
+	args := append([]string{"list", "-deps", "-f", "{{.ImportPath}}"}, cfg.BuildFlags...)
+	args = append(args, patterns...)
+	cmd := exec.Command("go", args...)
+	cmd.Dir = repoDir
+	cmd.Env = cfg.Env
+	out, err := cmd.Output()
+	if err != nil {
+		return nil
+	}
+	var res []string
+	for _, l := range strings.Split(string(out), "\n") {
+		l = strings.TrimSpace(l)
+		if l == repoModule || strings.HasPrefix(l, repoModule+"/") {
+			res = append(res, l)
+		}
+	}
+	return res
 }
 
 func goarchFor(extraTags string) string {
